@@ -394,6 +394,20 @@ theorem C07_late_read_witness :
     ∧ ((startStream false [] (compile false .top lateFixed)).polls [[], [1], [2], []]).out
       = [Poll.item "<div>".toList, Poll.pending, Poll.item "<i>1</i><em>2</em></div>".toList, Poll.done] := by decide
 
+/-- F-C07-6, what had loaded when the boundary walked its children (`compileA`'s `was`, `iteTree`): the outer resource's
+    future has completed before rendering.  A `Resource` / `AsyncDerived` has then loaded where it was created, the
+    boundary walks into its `.map` output, sees the inner read and waits for future 2; the loader of an `OnceResource` is
+    a spawned task that has not run yet: the inner read is late again. -/
+def lateLoaded (once : Bool) : View :=
+  .suspense "<u>f</u>".toList none
+    [.resRead once 1 (.seq [.raw "<i>1</i>".toList, .resRead false 2 (.raw "<em>2</em>".toList)])]
+
+theorem C07_late_read_loaded_witness :
+    ((startStream false [1] (compile false .top (lateLoaded false))).polls [[], [], [2], []]).out
+      = [Poll.pending, Poll.pending, Poll.item "<i>1</i><em>2</em>".toList, Poll.done]
+    ∧ ((startStream false [1] (compile false .top (lateLoaded true))).polls [[], [], [2], []]).out
+      = [Poll.item "<i>1</i><!>".toList, Poll.done, Poll.done, Poll.done] := by decide
+
 /-! ## non-vacuity -/
 
 /-- two futures, both completion orders, in-order: different chunkings, same document; the hypothesis of
